@@ -47,9 +47,12 @@ Verdict(op, a, t, u) ==
   ELSE IF op \in {"vle", "vlle"} /\ \E i \in Chems : Cls[i] \in {"liq", "sol"} /\ u["g"][i] > 0 THEN "locked.condensed_only_in_gas"
   ELSE "ok"
 
+\* the property speaks of material distributed over the phases: a table that already holds a negative flow (left by a
+\* call that was itself rejected) is no starting point
+InputOK(s) == \A ph \in Phs, i \in Chems : s.tab[ph][i] >= 0
 Pre(s, op, a) ==
-  CASE op \in {"vle", "lle", "vlle"} -> TRUE
-    [] op = "sle" -> a.solute \in Chems
+  CASE op \in {"vle", "lle", "vlle"} -> InputOK(s)
+    [] op = "sle" -> a.solute \in Chems /\ InputOK(s)
     [] op = "shuffle" -> TRUE            \* state shaping in recorded executions: the table is replaced
     [] OTHER -> FALSE
 \* e.obs.exc: the call raised (not judged: the property speaks of calls that return normally)
